@@ -35,7 +35,8 @@ func (*serverAntiAffinitiesSelector) Select(ssContext *Context) (string, error) 
 	}
 	selectedLabelValues := ssContext.LabelGroupedSelectedLabelValues()
 	candidates := linkedhashset.New[string]()
-	for affinityIdx, affinity := range policies.AntiAffinities {
+	firstLabel := true
+	for _, affinity := range policies.AntiAffinities {
 		for _, label := range affinity.Labels {
 			labelSatisfiedCandidates := linkedhashset.New[string]()
 			labelGroupedCandidates := ssContext.LabelValueGroupedCandidates()[label]
@@ -51,7 +52,8 @@ func (*serverAntiAffinitiesSelector) Select(ssContext *Context) (string, error) 
 					labelSatisfiedCandidates.Add(iter.Value())
 				}
 			}
-			if affinityIdx > 0 {
+			// every label of every rule narrows the candidates (only the very first one seeds them)
+			if !firstLabel {
 				labelSatisfiedCandidates = labelSatisfiedCandidates.Intersection(candidates)
 			}
 			if labelSatisfiedCandidates.Size() < 1 {
@@ -64,11 +66,8 @@ func (*serverAntiAffinitiesSelector) Select(ssContext *Context) (string, error) 
 					return "", selectors.ErrUnsupportedAntiAffinityMode
 				}
 			}
-			if affinityIdx == 0 {
-				candidates.Add(labelSatisfiedCandidates.Values()...)
-				continue
-			}
 			candidates = labelSatisfiedCandidates
+			firstLabel = false
 		}
 	}
 	if candidates.Size() == 1 {
